@@ -15,6 +15,7 @@
  R7 carried state: a model attribute computed from its own previous value inside a per-level / per-estimand step (memo, accumulator)
     must not depend on a parameter that varies with the request (level, estimand, aggregate, or anything a caller derives from them,
     e.g. the conformal training fraction) unless it is stored under that parameter.
+ R8 the interval columns of one level are filled from that level's intervals alone (restated from C02.R5).
 """
 from __future__ import annotations
 
@@ -53,6 +54,12 @@ def check(ctx):
     _generators(ctx)
     _column_writes(ctx)
     _carried_state(ctx)
+    # R8: the columns of one interval level are filled from the intervals of THAT level alone (restated from C02.R5: lower_<a>_<e> is
+    # element 0 / .lower of intervals[a]); a value combined across the requested levels (a hull, a running extreme) makes the level-a
+    # columns depend on which other levels were asked for
+    n8 = ctx.borrow("C02", "C02.R5.positions", "C13.R8.level-columns.aggregate", "the columns of one level would depend on the other levels requested in the same run")
+    n8 += ctx.borrow("C02", "C02.R5.unit", "C13.R8.level-columns.unit", "the columns of one level would depend on the other levels requested in the same run")
+    ctx.sites("C13.R8", n8, 2, "interval column writes of the results handler, restated from C02.R5")
 
 
 # ---------------------------------------------------------------------------------------------
